@@ -735,7 +735,19 @@ def noise_model_case(draw, tier):
             "as_object": draw(st.booleans()), "bad_strength": float(draw(st.sampled_from([-1.0, -1e-9, -1e3])))}
 
 
-DEGENERATE_KINDS = ("mixed", "diag", "trivial", "depol")
+def noise_visible(t, ideal, d, m):
+    """False for ideal objects on which a trace-preserving noise channel may act trivially (maximally mixed state, POVM
+    elements proportional to the identity, maps whose output is always proportional to the identity): there two different
+    noise draws legitimately give the same noisy object."""
+    n = d * d
+    x = np.asarray(ideal, dtype=float)
+    if t == "state":
+        return float(np.linalg.norm(x[1:])) > 1e-3
+    if t == "povm":
+        return any(float(np.linalg.norm(x[i * n + 1:(i + 1) * n])) > 1e-3 for i in range(m))
+    mm = 1 if t == "gate" else m
+    return any(float(np.linalg.norm(x[i * n * n:(i + 1) * n * n].reshape(n, n)[1:, :])) > 1e-3 for i in range(mm))
+
 
 
 def _base_objects(case):
@@ -821,8 +833,7 @@ def check_noise(case, ctx):
     if positive:
         ctx.check(not np.array_equal(np.asarray(c1[4]), np.asarray(c2[4])), "lindbladian_draws_differ:generator",
                   "two draws of one generator gave the same random Lindbladian")
-        degenerate = b["kind"] == "generated" and b["obj"].get("kind") in DEGENERATE_KINDS
-        if not degenerate:
+        if noise_visible(t, ideal, d, m):
             ctx.check(not np.array_equal(x1, x2), "lindbladian_draws_differ:object", "two draws of one generator gave the same object")
     else:
         if case["lindbladian_base"] == "identity":
@@ -1037,7 +1048,7 @@ FACETS = {
         "strategy": flow_case,
         "check": check_flow,
         "minimize": minimize_flow,
-        "budget": {"quick": {"examples": 32, "shards": 8}, "thorough": {"examples": 400, "shards": 16}},
+        "budget": {"quick": {"examples": 24, "shards": 8}, "thorough": {"examples": 320, "shards": 16}},
         "nontrivial": "every case: eleven runs (in-process, fresh interpreter x2, 4 levels x {2,4} real loky workers) compared",
         "min_nontrivial": 6,
     },
